@@ -189,6 +189,7 @@ class Interp:
         self.havocs = set()
         self.called = set()
         self.trace_calls = False
+        self.on_call = None
 
     # ---------------------------------------------------------------- utils
     def unsupported(self, what, node=None):
@@ -621,9 +622,9 @@ class Interp:
                 return self.eq_values(v, self.eval_const(name), pat)
             if pat["sub"] is not None:
                 c = self.match_pat(pat["sub"], v, binds, node)
-                binds[name] = self.deref(v)
+                binds[name] = v
                 return c
-            binds[name] = v if pat["by_ref"] else self.deref(v)
+            binds[name] = v
             return True
         if k == "typed":
             return self.match_pat(pat["pat"], v, binds, node)
@@ -1287,7 +1288,9 @@ class Interp:
             c = self.match_pat(arm["pat"], v, binds, arm)
             if c is False:
                 continue
-            if not self.branch(c):
+            if isinstance(c, Opaque) and arm is e["arms"][-1] and arm["guard"] is None:
+                pass  # rustc checked exhaustiveness: an opaque scrutinee that reached the last arm takes it
+            elif not self.branch(c):
                 continue
             self.scopes.append(binds)
             try:
@@ -1436,7 +1439,9 @@ class Interp:
                 (lambda i: Int(i, (hi if isinstance(hi, Int) else lo).w, (hi if isinstance(hi, Int) else lo).s))
             return [mk(i) for i in range(lo_c, hi_c)]
         if isinstance(it, Opaque):
-            self.unsupported(f"iteration over opaque {it.label}", node)
+            # havoc'd collection: 0..2 opaque elements (over-approximation, tainted)
+            n = self.ctx.choose_free(3, f"length of opaque collection {it.label}")
+            return [self.havoc(f"{it.label}[{i}]") for i in range(n)]
         self.unsupported(f"iteration over {type(it).__name__}", node)
 
     def e_closure(self, e):
@@ -1541,6 +1546,8 @@ class Interp:
         if name in self.opaque_fns or fn["name"] in self.opaque_fns:
             return self.havoc(name + "()")
         self.called.add((name, fn.get("file"), fn["line"], fn["end_line"], fn["hash"]))
+        if self.on_call is not None:
+            self.on_call(name, args)
         if self.depth >= self.depth_bound:
             raise UnwindExceeded(f"recursion depth {self.depth_bound} exceeded calling {name}")
         params = fn["params"]
